@@ -1060,21 +1060,39 @@ dt_strfdt(char *restrict buf, size_t bsz, const char *fmt, struct dt_dt_s that)
 			 * short number and a suffix, don't run them dry */
 			break;
 		} else if (LIKELY(!spec.rom)) {
+			/* start of this field */
+			const char *const fs = bp;
+
 			bp += __strfdt_card(bp, eo - bp, spec, &d, that);
 			if (UNLIKELY(bp > eo)) {
 				/* snprintf()-based printers return what they would
 				 * have written */
 				bp = eo;
 			}
-			if (spec.ord && bp > buf && bp + 3 <= eo) {
-				if (bp < buf + 2 || bp[-2] < '0' || bp[-2] > '9') {
-					/* single digit (%-dth), __ordtostr() wants
-					 * two and drops a leading nought again */
-					bp[0] = bp[-1];
-					bp[-1] = '0';
-					bp++;
+			if (spec.ord && bp > fs && bp + 3 <= eo) {
+				if (bp - fs > 2 && bp[-2] == '0') {
+					/* 101st, 305th: the nought is part of the
+					 * number, __ordtostr() would drop it */
+					const char *sf =
+						bp[-1] == '1' ? "st"
+						: bp[-1] == '2' ? "nd"
+						: bp[-1] == '3' ? "rd" : "th";
+
+					*bp++ = sf[0];
+					*bp++ = sf[1];
+				} else {
+					if (bp < fs + 2 ||
+					    bp[-2] < '0' || bp[-2] > '9') {
+						/* single digit (%-dth), __ordtostr()
+						 * wants two and drops a leading
+						 * nought again, mind that what is in
+						 * front may be another field's */
+						bp[0] = bp[-1];
+						bp[-1] = '0';
+						bp++;
+					}
+					bp += __ordtostr(bp, eo - bp);
 				}
-				bp += __ordtostr(bp, eo - bp);
 			} else if (spec.bizda && bp < eo) {
 				/* don't print the b after an ordinal */
 				if (spec.ab == BIZDA_AFTER) {
